@@ -429,7 +429,8 @@ def run(rep, ctx):
             return explore(rest, n, w_)
         gif = [x for x in f.walk() if x["k"] == "IfStmt" and any(y["i"] in guard_conds for y in walk(kids(x)[0]))]
         if not gif:
-            raise AnalysisBroken("C10.G1: the IsProblemSolvedOrFeasible() test was not found")
+            g1.fail("values-test-under-guard", short_loc(f.loc), "no test of IsProblemSolvedOrFeasible() guards the objective text")
+            continue
         tests = [x for x in f.walk() if x["k"] == "IfStmt" and "objvals" in render(kids(x)[0])]
         g1.check(bool(tests) and all(guarded(kids(x)[0]) or guarded(x) for x in tests), "values-test-under-guard", short_loc(gif[0].get("l")),
                  "the tests on the number of objective values are control-dependent on IsProblemSolvedOrFeasible()")
